@@ -43,6 +43,8 @@ RdVar(bs, p, shift, acc) ==
            acc2 == acc \cup {shift + k : k \in {j \in 0..6 : (b \div PWPow2(j)) % 2 = 1}}
        IN IF b >= 128 THEN RdVar(bs, p + 1, shift + 7, acc2) ELSE <<acc2, p + 1>>
 NumOf(S) == FoldSet(LAMBDA b, a : a + PWPow2(b), 0, S)          \* for values below 2^31
+\* -1 for a value that does not fit a TLC integer (64-bit fields the reader ignores)
+NumOfSafe(S) == IF S # {} /\ Max(S) >= 31 THEN -1 ELSE NumOf(S)
 
 BadField == [f |-> -1, wt |-> -1, n |-> 0, bytes |-> <<>>]
 \* the fields of a message, in stream order: [f, wt, n (varint value), bytes (payload)]
@@ -54,9 +56,9 @@ Fields(bs, p) ==
        ELSE LET tag == NumOf(t[1])  f == tag \div 8  wt == tag % 8
                 v   == RdVar(bs, t[2], 0, {}) IN
             IF v[2] = 0 \/ wt \notin {0, 2} THEN <<BadField>>
-            ELSE IF wt = 0 THEN <<[f |-> f, wt |-> 0, n |-> NumOf(v[1]), bytes |-> <<>>]>> \o Fields(bs, v[2])
-            ELSE LET n == NumOf(v[1]) IN
-                 IF v[2] + n - 1 > Len(bs) THEN <<BadField>>
+            ELSE IF wt = 0 THEN <<[f |-> f, wt |-> 0, n |-> NumOfSafe(v[1]), bytes |-> <<>>]>> \o Fields(bs, v[2])
+            ELSE LET n == NumOfSafe(v[1]) IN
+                 IF n < 0 \/ v[2] + n - 1 > Len(bs) THEN <<BadField>>
                  ELSE <<[f |-> f, wt |-> 2, n |-> n, bytes |-> SubSeq(bs, v[2], v[2] + n - 1)]>> \o Fields(bs, v[2] + n)
 
 WellFormed(fs) == \A i \in 1..Len(fs) : fs[i].f # -1
